@@ -7,4 +7,5 @@ mkdir -p bin evidence replays
 cp /repo/go.sum go.sum
 go build -tags verif -o bin/vcheck ./cmd/vcheck
 (cd /repo && go build -o /verif/bin/goverter ./cmd/goverter)
+tools/mkcache.sh
 echo setup ok
